@@ -127,6 +127,8 @@ class Machine(object):
             return {"kind": "toy", "fam": rng.choice(["RSA", "DSA", "ElGamal"]), "seed": rng.randrange(1 << 30), "ops": []}
         if r < 0.86:
             return {"kind": "ecc_alloc", "seed": rng.randrange(1 << 30), "ops": []}
+        if r < 0.88:
+            return {"kind": "out_of_range", "seed": rng.randrange(1 << 30), "ops": []}
         fam = rng.choice(["RSA", "DSA", "ECC", "ECC", "ElGamal"])
         muts = []
         for _ in range(16):
@@ -388,6 +390,103 @@ class Machine(object):
                         "ECC.construct(curve=%s) accepted a point whose curve-equation residual is %s%d*2^%d (not on the curve)" % (
                             cn, "", res if res < 1 << 64 else 0, j),
                         observed="key accepted (x=%x.., y=%x..)" % (x >> 64, y >> 64), expected="ValueError")
+
+    def _small_x_points(self):
+        """Points with a small x (so that x + p still fits the coordinate width) on the curves whose prime is 3 mod 4."""
+        if not hasattr(self, "_sxp"):
+            self._sxp = {}
+            for cn in ("P-192", "P-256", "P-384", "P-521"):
+                c = ec.WS[cn]
+                pts, x = [], 1
+                while len(pts) < 6:
+                    rhs = (x * x * x - 3 * x + c["b"]) % c["p"]
+                    y = pow(rhs, (c["p"] + 1) // 4, c["p"])
+                    if y * y % c["p"] == rhs:
+                        pts.append((x, y))
+                    x += 1
+                self._sxp[cn] = pts
+        return self._sxp
+
+    def run_out_of_range(self, case, ctx):
+        """Coordinates that are a valid point's coordinates plus a multiple of the field prime, where the sum still fits the
+        coordinate width: another encoding of the same residue, which the statement wants refused (coordinates in range)."""
+        from Crypto.PublicKey import ECC
+        from Crypto.Signature import eddsa
+        rng = Rng(case["seed"])
+        lib = {"P-192": "p192", "P-256": "p256", "P-384": "p384", "P-521": "p521"}
+        for _ in range(8):
+            ctx.step()
+            fam = rng.choice(["ws", "ws", "ws", "ed25519", "ed448"])
+            tries = []
+            if fam == "ws":
+                cn = rng.choice(list(lib))
+                c = ec.WS[cn]
+                p_ = c["p"]
+                n = (p_.bit_length() + 7) // 8
+                if cn == "P-521" and rng.random() < 0.6:
+                    P = ec.ws_mul(c, 2 + rng.randrange(1 << 60), ec.ws_generator(c))
+                else:
+                    P = rng.choice(self._small_x_points()[cn])
+                    if rng.random() < 0.5:
+                        P = (P[0], p_ - P[1])
+                kx = rng.choice([1, 1, 2, 3, 100]) if cn == "P-521" else 1
+                which = rng.choice(["x", "x", "y"]) if cn == "P-521" else "x"
+                x, y = (P[0] + kx * p_, P[1]) if which == "x" else (P[0], P[1] + kx * p_)
+                if max(x, y).bit_length() > 8 * n:
+                    continue
+                xb, yb = x.to_bytes(n, "big"), y.to_bytes(n, "big")
+                tries.append(("ECC.construct", lambda: ECC.construct(curve=lib[cn], point_x=x, point_y=y)))
+                tries.append(("ECC.import_key(SEC1)", lambda: ECC.import_key(b"\x04" + xb + yb, curve_name=lib[cn])))
+                if which == "x":
+                    tries.append(("ECC.import_key(SEC1 compressed)", lambda: ECC.import_key(bytes([2 + (P[1] & 1)]) + xb, curve_name=lib[cn])))
+                good = ECC.construct(curve=lib[cn], point_x=P[0], point_y=P[1]).export_key(format="DER")
+                gb = b"\x04" + P[0].to_bytes(n, "big") + P[1].to_bytes(n, "big")
+                if good.count(gb) == 1:
+                    tries.append(("ECC.import_key(DER)", lambda: ECC.import_key(good.replace(gb, b"\x04" + xb + yb))))
+                label = "%s %s+%dp" % (cn, which, kx)
+            elif fam == "ed25519":
+                E = ec.ED["Ed25519"]
+                p_ = E["p"]
+                y0 = rng.choice([0, 3, 4, 5, 6, 9, 10, 14, 15, 16, 18])
+                x2 = (y0 * y0 - 1) * pow((E["d"] * y0 * y0 + 1) % p_, -1, p_) % p_
+                x0 = ec._sqrt_mod(x2, p_)
+                if x0 is None:
+                    continue
+                tries.append(("ECC.construct", lambda: ECC.construct(curve="ed25519", point_x=x0, point_y=y0 + p_)))
+                enc = bytearray((y0 + p_).to_bytes(32, "little"))
+                enc[31] |= (x0 & 1) << 7
+                tries.append(("eddsa.import_public_key", lambda: eddsa.import_public_key(bytes(enc))))
+                label = "Ed25519 y=%d+p" % y0
+            else:
+                E = ec.ED["Ed448"]
+                p_ = E["p"]
+                P = ec.ed_mul(E, 2 + rng.randrange(1 << 60), ec.ed_generator(E))
+                k_ = rng.choice([1, 1, 2, 100])
+                enc = bytearray((P[1] + k_ * p_).to_bytes(57, "little"))
+                if enc[56] & 0x80:
+                    continue
+                enc[56] |= (P[0] & 1) << 7
+                tries.append(("eddsa.import_public_key", lambda: eddsa.import_public_key(bytes(enc))))
+                good = ECC.construct(curve="ed448", point_x=P[0], point_y=P[1])
+                der = good.export_key(format="DER")
+                raw = good.export_key(format="raw")
+                if der.count(raw) == 1:
+                    tries.append(("ECC.import_key(DER)", lambda: ECC.import_key(der.replace(raw, bytes(enc)))))
+                label = "Ed448 y+%dp" % k_
+            for name, f in tries:
+                ctx.fault("mem.out_of_range")
+                ctx.state(("out_of_range", label.split()[0], name))
+                try:
+                    f()
+                except ValueError:
+                    ctx.probe("out_of_range_coordinate_refused")
+                    continue
+                except Exception as e:
+                    ctx.violate("construct/ECC/exception:%s" % type(e).__name__, "%s raised %s for an out-of-range coordinate (%s)" % (name, type(e).__name__, label),
+                                observed=repr(e), expected="ValueError")
+                ctx.violate("invariant/%s/out-of-range-coordinate-accepted/%s" % (name.split("(")[0], label.split()[0]),
+                            "%s accepted a public point with a coordinate outside [0, p-1] (%s: the residue is a valid point's, the "
+                            "encoding is not the canonical one)" % (name, label), observed="key accepted", expected="ValueError")
 
     def run_ecc_alloc(self, case, ctx):
         """Allocation failures inside the native EC code while a key is being constructed (build variant ``alloc``: the
